@@ -14,7 +14,11 @@ pub fn alpha(full: bool) -> Alpha {
     if full {
         a.ins.push((1, 1, 1));
         a.rem = vec![(1, 0)];
-        a.batches = vec![vec![Item { ks: 0, k: 1, v: Some(1) }, Item { ks: 1, k: 1, v: Some(1) }]];
+        a.batches = vec![
+            vec![Item { ks: 0, k: 1, v: Some(1) }, Item { ks: 1, k: 1, v: Some(1) }],
+            // the item of the keyspace that gets deleted comes first
+            vec![Item { ks: 1, k: 2, v: Some(0) }, Item { ks: 0, k: 2, v: Some(0) }],
+        ];
     }
     a.rotate = vec![1];
     a.create = vec![0, 1, 2];
@@ -42,6 +46,15 @@ pub fn passes(tier: &str) -> Vec<Pass> {
         mk("names-xyz/full", d.clone(), alpha(true), "", if q { 4 } else { 5 }, 3, if q { 10.0 } else { 300.0 }),
         mk("two-sealed-journals", d.clone(), alpha(false), "two_sealed_journals", if q { 4 } else { 6 }, 3, if q { 10.0 } else { 300.0 }),
     ];
+    {
+        let mut a = Alpha::empty();
+        a.ins = vec![(1, 1, 0)];
+        a.rotate = vec![1, 2];
+        a.delete = vec![0, 2];
+        a.reopen = true;
+        a.max_reopen = 1;
+        v.push(mk("delete-while-journals-pinned", d.clone(), a, "two_sealed_journals_z", if q { 4 } else { 6 }, 4, if q { 6.0 } else { 200.0 }));
+    }
     if !q {
         v.push(mk("tiny", Cfg { tiny: true, ..d.clone() }, alpha(false), "", 5, 4, 200.0));
         v.push(mk("blob", Cfg { blob: true, ..d.clone() }, alpha(false), "", 5, 4, 200.0));
